@@ -11,7 +11,7 @@ META = ("other",
         "C01.R1 who-may-write the fields of SqlWriterValues; R2 exact path summary of push_param (counter += 1 once, before "
         "the placeholder text; one append = placeholder [+ post-increment counter iff numbered]; one push of the parameter "
         "itself); R3 new/write_str/into_parts; R4 every QueryBuilder::prepare_value impl calls push_param exactly once on "
-        "every path with a clone of its own argument; R5 placeholder() table; R6 entry points build/build_any wire "
+        "every path with a clone of its own argument; R5 placeholder() table; R6 entry points build/build_any (interpreted with an opaque backend and render step, helpers followed) wire "
         "placeholder() of the rendering backend into the writer and return into_parts(); R7 no literal placeholder mark "
         "in any renderer; R9 no side writer; R10 the tuple conversions that feed in_tuples / from_values / VALUES lists "
         "(IntoValueTuple arity 1..12, ValueTuple::into_iter) keep the components in index order",
